@@ -48,6 +48,8 @@ func main() {
 			os.Exit(2)
 		}
 		os.Exit(replayMain(*build, *verif, fs.Arg(0), *quiet))
+	case "selftest-worker":
+		selftestWorker(*build, *seed, *worker, *workers, *out)
 	case "selftest":
 		os.Exit(selftestMain(*build, *verif, *tier, *seed))
 	default:
